@@ -165,7 +165,7 @@ def judge_one(req, st, toks):
     return None
 
 
-def run_and_judge(prop, ctx, cfgbins, shards=1, compare=True, wrapper=None, force=None, timeout=900):
+def run_and_judge(prop, ctx, cfgbins, shards=1, compare=True, wrapper=None, force=None, timeout=900, strip=True):
     """Run all blocks of ctx on each (cfgname, binary[, force]) and judge.
     cfgbins: list of (label, binary, force) where force is None or 1/2/3 (dispatcher override).
     Returns dict with stats, violations, harness errors, samples."""
@@ -189,6 +189,19 @@ def run_and_judge(prop, ctx, cfgbins, shards=1, compare=True, wrapper=None, forc
             lines.append('x0 reset')
         res, err, rc = run_driver(binary, lines, wrapper=wrapper, timeout=timeout)
         if rc != 0:
+            first = None
+            if rc < 0 and rc != -999:
+                for b in ctx.blocks:
+                    for r in b:
+                        if (r.only is None or r.only(label)) and r.id not in res:
+                            first = (r, b)
+                            break
+                    if first:
+                        break
+            if first:
+                viol.append(Violation(prop, label, first[0].line(), [x.line() for x in first[1]], 'a response', [],
+                                      'driver process killed by signal %d while executing this request: %s' % (-rc, err[-300:])))
+                continue
             harness.append('%s: driver exit code %s: %s' % (label, rc, err[-500:]))
         if frc:
             st = res.get('f0')
@@ -225,7 +238,7 @@ def run_and_judge(prop, ctx, cfgbins, shards=1, compare=True, wrapper=None, forc
         base = labels[0]
         for b in ctx.blocks:
             for r in b:
-                if r.info == 'repr':  # representation-specific output (raw limbs): not comparable
+                if r.info == 'repr' and strip:  # representation-specific output (raw limbs): not comparable
                     continue
                 ls = labels if r.only is None else [l for l in labels if r.only(l)]
                 if len(ls) < 2:
@@ -235,9 +248,10 @@ def run_and_judge(prop, ctx, cfgbins, shards=1, compare=True, wrapper=None, forc
                 for l in ls[1:]:
                     c = all_resp[l].get(r.id)
                     cross += 1
-                    if strip_repr(a) != strip_repr(c):
+                    sa, sc = (strip_repr(a), strip_repr(c)) if strip else (a, c)
+                    if sa != sc:
                         cross_viol.append(Violation('C05', base + ' vs ' + l, r.line(), [x.line() for x in b],
-                                                    strip_repr(a), strip_repr(c), 'configurations disagree'))
+                                                    sa, sc, 'configurations disagree'))
     return {'violations': viol, 'harness': harness, 'samples': samples, 'evaluations': evals,
             'distinct': distinct, 'per_cfg': per_cfg, 'classes': dict(ctx.classes),
             'cross_compared': cross, 'cross_violations': cross_viol}
